@@ -425,6 +425,55 @@ def R3_byte_offset(run):
     run.check("R3", "is_initialized_tick", ok, "the dynamic array's search does not test (bitmap & (1 << cursor)) != 0 on its own bitmap with the cursor of its range test", loc=fn.loc(), detail="(bitmap & (1 << i)) != 0")
 
 
+def R4c_initialise_only_blank(run):
+    run.title("R4c", "initialize_dynamic_tick_array writes the dynamic discriminator and header only into an account whose first eight bytes are all zero: a fixed array lives at "
+                     "the same address, and overwriting it turns every tick's net / gross into garbage")
+    facts = run.facts
+    h = facts.need_fn("instructions::initialize_dynamic_tick_array::handler")
+    run.touch(h)
+    eff = [bi for bi, t in h.calls() if not h.blocks[bi]["c"] and (callee_path(t) or "").endswith(("copy_from_slice", "DynamicTickArrayLoader::initialize"))]
+    ok = len(eff) >= 2
+    blank = None
+    for at in A.atoms(h):
+        c = at.cond()
+        if not c or c[0] not in ("Eq", "Ne"):
+            continue
+        for (x, y) in ((strip(c[1]), strip(c[2])), (strip(c[2]), strip(c[1]))):
+            zero = (y[0] == "repeat" and const_val(y[1]) == 0) or (y[0] == "array" and y[1] and all(const_val(e) == 0 for e in y[1]))
+            rng = [s_ for s_ in subterms(x) if s_[0] == "agg" and s_[1].endswith("ops::Range")]
+            if zero and rng and const_val(dict(rng[0][3])["start"]) == 0 and const_val(dict(rng[0][3])["end"]) == 8:
+                blank = (at, c[0])
+    ok = ok and blank is not None
+    if ok:
+        at, op = blank
+        blank_side = at.true_targets[0] if op == "Eq" else at.false_targets[0]
+        other_side = at.false_targets[0] if op == "Eq" else at.true_targets[0]
+        rb = cfg.reach(h, blank_side, cut_blocks=[at.block])
+        ro = cfg.reach(h, other_side, cut_blocks=[at.block])
+        ok = all(b in rb and b not in ro for b in eff)
+    run.check("R4c", "blank-only", ok, "initialize_dynamic_tick_array can write the discriminator / header into an account whose first 8 bytes are not all zero", loc=h.loc(),
+              detail="data[0..8] == [0; 8] guards the discriminator store and initialize()")
+
+
+def R4b_resize_moves_no_bytes(run):
+    run.title("R4b", "growing / shrinking a dynamic array only changes the account's length: the functions that carry out the size update (update_tick_array_accounts, both "
+                     "implementations, with their private resize helpers read in place) take no mutable view of the account data - the tick bytes were laid out by update_tick")
+    facts = run.facts
+    n = 0
+    facts.need_fn("manager::tick_array_manager::update_tick_array_accounts")
+    facts.need_fn("pinocchio::ported::manager_tick_array_manager::pino_update_tick_array_accounts")
+    mods = ("manager::tick_array_manager::", "pinocchio::ported::manager_tick_array_manager::")
+    for fn in [f for f in facts.fn_list if f.kind == "fn" and f.path.startswith(mods) and not f.expn]:
+        path = fn.path
+        run.touch(fn)
+        views = [(bi, callee_path(t)) for bi, t in fn.calls() if not fn.blocks[bi]["c"] and (callee_path(t) or "").rsplit("::", 1)[-1] in
+                 ("try_borrow_mut_data", "borrow_mut_data_unchecked", "data_ptr", "as_mut_ptr", "fill", "copy_from_slice", "copy_within", "rotate_left", "rotate_right")]
+        n += 1
+        run.check("R4b", "no-data-writes@" + path.rsplit("::", 1)[-1], not views, "%s takes a mutable view of / writes the account data (%s): a resize must not touch tick bytes" % (
+            path, sorted({p.rsplit("::", 1)[-1] for _, p in views})), loc=fn.loc(views[0][0] and fn.blocks[views[0][0]]["t"].get("l")) if views else fn.loc(), detail="resize / realloc and lamport moves only")
+    run.floor("R4b", "functions of the two tick-array managers", n, 6)
+
+
 def R4_size_and_rent(run):
     run.title("R4", "calculate_modify_tick_array: fixed arrays get the no-op update; Increase iff !tick.initialized && update.initialized, Decrease iff the converse; rent to the "
                     "array iff position liquidity 0 -> non-0, back iff non-0 -> 0; resizing is by +-TICK_INITIALIZATION_SIZE in both implementations")
@@ -512,6 +561,11 @@ def R4_size_and_rent(run):
             run.check("R4", "resize@" + name, ok, msg, loc=fn.loc(), detail=("data_len %s TICK_INITIALIZATION_SIZE (112)" % ("+" if sign == "Add" else "-")) if sign else "no resize")
 
 
+def json_dumps(x):
+    import json
+    return json.dumps(x)
+
+
 def R5_shared_checks(run):
     run.title("R5", "fixed and dynamic arrays reject the same lookups (out of array bounds or unusable tick => TickNotFound) in get_tick / update_tick; the Pinocchio dynamic view "
                     "does its lookup through check_is_usable_tick_and_get_offset like the Pinocchio fixed view")
@@ -539,6 +593,27 @@ def R5_shared_checks(run):
             ok = len(cs) == 1 and is_param(cs[0][2][1], "tick_index") and is_param(cs[0][2][2], "tick_spacing") and any("TickNotFound" in cfg.block_error_codes(fn, b) for b in range(len(fn.blocks)))
             run.check("R5", "%s@%s" % (m, label), ok, "%s::%s does not look the slot up through check_is_usable_tick_and_get_offset(tick_index, tick_spacing) with None => TickNotFound" % (path, m), loc=fn.loc(),
                       detail="None => TickNotFound")
+    # the Pinocchio dynamic view: an uninitialised slot is ONE byte, so it cannot be mapped as a 113-byte tick (the view would read
+    # the following slots' bytes as this tick's liquidity and growths): tag == 0 returns the static zeroed tick, and the slot's
+    # bytes are only mapped on the other side
+    g = facts.need_fn(PDYN + "::get_tick")
+    pvg = prov_of(g)
+    tag = [at for at in A.atoms(g) if at.cond() and at.cond()[0] in ("Eq", "Ne") and const_val(at.cond()[2]) == 0 and
+           mentions(at.cond()[1], lambda s_: s_[0] == "index" and mentions(s_, lambda x: x[0] == "call" and x[1].endswith("byte_offset")))]
+    ok = len(tag) == 1
+    if ok:
+        at = tag[0]
+        zero_side = at.true_targets[0] if at.cond()[0] == "Eq" else at.false_targets[0]
+        live_side = at.false_targets[0] if at.cond()[0] == "Eq" else at.true_targets[0]
+        maps = [bi for bi, t in g.calls() if (callee_path(t) or "").endswith("as_ptr") and not g.blocks[bi]["c"]]
+        rz = cfg.reach(g, zero_side, cut_blocks=[at.block])
+        rl = cfg.reach(g, live_side, cut_blocks=[at.block])
+        # (a reference to a static is a constant operand of reference type)
+        statics = [bi for bi, bb in enumerate(g.blocks) for si, st in enumerate(bb["s"]) if st["k"] == "=" and isinstance(st["rv"].get("use"), dict) and
+                   isinstance(st["rv"]["use"].get("k"), dict) and str(st["rv"]["use"]["k"].get("ty", "")).startswith("&") and str(st["rv"]["use"]["k"].get("ty", "")).endswith("MemoryMappedTick")]
+        ok = bool(maps) and all(b in rl and b not in rz for b in maps) and any(b in rz for b in statics)
+    run.check("R5", "zero-slot@pino-dynamic", ok, "Pinocchio dynamic get_tick does not answer an uninitialised (one-byte) slot with the static zeroed tick / maps slot bytes on that side",
+              loc=g.loc(), detail="ticks[byte_offset] == 0 => &STATIC_ZEROED_MEMORY_MAPPED_TICK; bytes mapped only otherwise")
     # the shared Pinocchio lookup itself: an offset is handed out only for a tick that lies inside this array, inside the global
     # bounds and on the spacing grid (the offset is computed from |tick - start|, so without the array-bounds test a tick k
     # spacings *below* the start would be served from slot k)
@@ -733,4 +808,4 @@ def R8_conversions(run):
     run.check("R8", "slot-kind", ok, "an update becomes an Initialized slot exactly when update.initialized", loc=fn.loc(), detail="initialized => Initialized(data) else Uninitialized")
 
 
-RULES = [R6_account_wiring, R1_constants, R2_shift_bitmap_pairing, R3_byte_offset, R4_size_and_rent, R5_shared_checks, R7_cross_checks, R8_conversions]
+RULES = [R6_account_wiring, R1_constants, R2_shift_bitmap_pairing, R3_byte_offset, R4_size_and_rent, R4b_resize_moves_no_bytes, R4c_initialise_only_blank, R5_shared_checks, R7_cross_checks, R8_conversions]
